@@ -82,13 +82,18 @@ def applyDelete (st : FileState V) (d : TimeRange) : FileState V :=
           else { st with tombs := newTs }
   | _, _ => st  -- key not in the index (never written, or deleted): nothing recorded
 
-/-- a freshly written file (tsmWriter.Write: one index entry per block, `[first ts, last ts]`) -/
-def mkFile (blocks : List (Vals V)) : Option (FileState V) := do
-  let es ← blocks.mapM fun b =>
-    match minTime? b, maxTime? b with
-    | some lo, some hi => some (({ MinTime := lo, MaxTime := hi } : IndexEntry), b)
-    | _, _ => none
-  pure { entries := es, tombs := [] }
+/-- tsmWriter.Write: one index entry per block, `[first ts, last ts]`; `none` for an empty
+    block (the writer ignores those; the generator never emits one) -/
+def mkEntries : List (Vals V) → Option (List (IndexEntry × Vals V))
+  | [] => some []
+  | b :: bs =>
+    match minTime? b, maxTime? b, mkEntries bs with
+    | some lo, some hi, some es => some ((({ MinTime := lo, MaxTime := hi } : IndexEntry), b) :: es)
+    | _, _, _ => none
+
+/-- a freshly written file -/
+def mkFile (blocks : List (Vals V)) : Option (FileState V) :=
+  (mkEntries blocks).map fun es => { entries := es, tombs := [] }
 
 /-! ## locations -/
 
@@ -119,21 +124,29 @@ def keepEntry (tombs : List TimeRange) (t : Int) (asc : Bool) (e : IndexEntry) :
   !(if asc then decide (e.MaxTime < t) else decide (e.MinTime > t))
 
 def fileLocations (t : Int) (asc : Bool) (fi : Nat) (f : FileState V) : List (Block V) :=
-  ((List.range f.entries.length).zip f.entries).filterMap fun (bi, (e, vals)) =>
-    if keepEntry f.tombs t asc e then
-      some { file := fi, blk := bi, entry := e, vals := vals, tombs := f.tombs }
+  f.entries.zipIdx.filterMap fun (ev, bi) =>
+    if keepEntry f.tombs t asc ev.1 then
+      some { file := fi, blk := bi, entry := ev.1, vals := ev.2, tombs := f.tombs }
     else none
 
 /-- FileStore.locations: file-major, entries in index order (the pre-sort order) -/
 def locations (files : List (FileState V)) (t : Int) (asc : Bool) : List (Block V) :=
-  ((List.range files.length).zip files).flatMap fun (fi, f) => fileLocations t asc fi f
+  files.zipIdx.flatMap fun (f, fi) => fileLocations t asc fi f
+
+def lookupAll (locs : List (Block V)) : List (Nat × Nat) → Option (List (Block V))
+  | [] => some []
+  | (fi, bi) :: rest =>
+    match locs.find? (fun b => b.file == fi && b.blk == bi), lookupAll locs rest with
+    | some b, some bs => some (b :: bs)
+    | _, _ => none
 
 /-- `order` (a list of (file, entry index)) applied to the pre-sort list: the post-sort `seeks`.
     `none` unless `order` names every location exactly once. -/
 def applyOrder (locs : List (Block V)) (order : List (Nat × Nat)) : Option (List (Block V)) :=
   if order.length ≠ locs.length then none
   else if !order.Nodup then none
-  else order.mapM fun (fi, bi) => locs.find? fun b => b.file == fi && b.blk == bi
+  else if !(locs.all fun b => order.contains (b.file, b.blk)) then none
+  else lookupAll locs order
 
 /-! ## the cursor -/
 
